@@ -213,6 +213,13 @@ def classify(spec) -> list:
                         flags.add('conn_perm' if nme in perm else 'conn_cond_' + side)
             if k.get('exclude'):
                 flags.add('conn_excl')
+            for side in ('src', 'tgt'):
+                for e in k[side]:
+                    if isinstance(e, dict) and len({bool(nm[m].get('rep', False)) for m in e['members']}) > 1:
+                        flags.add('conn_grp_mixed_rep')
+                    if isinstance(e, dict) and any('list' not in nm[m].get('deg', {'list': [1]}) and
+                                                   nm[m]['deg'].get('max') is None for m in e['members']):
+                        flags.add('conn_grp_open_ended')
     for n in spec['nodes']:
         if n['kind'] == 'dv':
             flags.add('dv_disc' if 'options' in n else 'dv_cont')
